@@ -50,6 +50,8 @@ type Frame struct {
 	loopHead map[*ssa.BasicBlock]*loopState
 	top      bool
 	callN    map[string]int
+	ranges    []*MapIter
+	rangeOf   []*ssa.Range
 	localVars map[string]Val
 	lastRets map[string][]Val
 	lastRetNames map[string]map[string]int
@@ -537,7 +539,7 @@ func (fr *Frame) specEnv(cur *State) *SpecEnv {
 			vars[k] = v
 		}
 	}
-	return &SpecEnv{cx: fr.cx, pkg: tp, vars: vars, cur: cur, old: fr.entry}
+	return &SpecEnv{cx: fr.cx, pkg: tp, vars: vars, cur: cur, old: fr.entry, ranges: fr.ranges}
 }
 
 // enterLoop handles a loop header: checks the invariant on entry, havocs the
@@ -597,6 +599,27 @@ func (fr *Frame) enterLoop(head *ssa.BasicBlock, phis []*ssa.Phi, outside func(*
 			m := ModLoc{loc: v.t, typ: el, text: "local " + al.Comment}
 			ls.mods = append(ls.mods, m)
 			fr.cx.havocLoc(fr.st, m)
+		}
+	}
+	{
+		body := loopBlocks(head)
+		for blk := range body {
+			for _, ins := range blk.Instrs {
+				nx, ok := ins.(*ssa.Next)
+				if !ok {
+					continue
+				}
+				rg, ok := nx.Iter.(*ssa.Range)
+				if !ok || body[rg.Block()] {
+					continue
+				}
+				if v, ok := fr.vals[rg]; ok && v.iter != nil && v.iter.vis != nil {
+					it := v.iter
+					ks := fr.w().sortOf(it.mt.Key())
+					vh := fr.st.heap(fr.cx, it.visHeap)
+					fr.st.set(it.visHeap, b.Name(it.visHeap, b.Store(vh, it.vis, b.Const("visited", SArray(ks, SBool)))))
+				}
+			}
 		}
 	}
 	for _, p := range phis {
